@@ -168,7 +168,7 @@ class FusedParquetIO(FusedIO):
     ):
         from dask_expr.io.parquet import ReadParquetPyarrowFS
 
-        tables = (
+        tables = [
             ReadParquetPyarrowFS._fragment_to_table(
                 frag,
                 filter,
@@ -176,8 +176,14 @@ class FusedParquetIO(FusedIO):
                 schema,
             )
             for frag, filter in frag_filters
-        )
-        table = pa.concat_tables(tables, promote_options="permissive")
+        ]
+        if tables[0].num_columns == 0:
+            # ``pa.concat_tables`` forgets the number of rows of tables that
+            # have no columns (e.g. only a RangeIndex is asked for)
+            nrows = sum(table.num_rows for table in tables)
+            table = pa.table({"_": pa.nulls(nrows)}).select([])
+        else:
+            table = pa.concat_tables(tables, promote_options="permissive")
         return ReadParquetPyarrowFS._table_to_pandas(table, *to_pandas_args)
 
     def _task(self, index: int):
